@@ -1,11 +1,130 @@
+/-
+C07 driver: replays one validation over the upstream trace and the oracle tables of a case line
+(`run <hid> <qname> <qtype> <E> D<depth> C<cd> <faults> | U … | T …`, see harness/src/props/c07.rs)
+with the model `Chain.validate` and prints the per-record proofs and the server's view.
+-/
 import HickoryVerif.Drv.Proto
+import HickoryVerif.Model.Chain
 
 namespace HickoryVerif.Drv.C07
-open HickoryVerif HickoryVerif.Drv
+open HickoryVerif HickoryVerif.Drv HickoryVerif.Chain
 
 abbrev State := Unit
 def init : State := ()
 
-def step (s : State) (_toks : List String) : State × String := (s, "bad-op")
+def parseDName (s : String) : DName := (s.splitOn ".").filter (· ≠ "")
+
+def nat? (s : String) : Option Nat := if s == "-" then some 0 else s.toNat?
+
+/-- `R name type rid a b c d` -/
+def parseRec : List String → Option Rec
+  | [name, ty, rid, a, b, c, d] => do
+    let ty ← ty.toNat?
+    let rid ← rid.toNat?
+    let base : Rec := { name := parseDName name, rtype := ty, rid := rid }
+    if ty == tRRSIG then
+      pure { base with covered := ← nat? a, signer := parseDName b, labels := ← nat? c }
+    else if ty == tDNSKEY then
+      pure { base with tag := ← nat? a, alg := ← nat? b, algSupp := c == "1" }
+    else if ty == tDS then
+      pure { base with tag := ← nat? a, alg := ← nat? b, algSupp := c == "1", digSupp := d == "1" }
+    else pure base
+  | _ => none
+
+def takeRecs : Nat → List String → Option (List Rec × List String)
+  | 0, ts => some ([], ts)
+  | n + 1, "R" :: ts => do
+    let r ← parseRec (ts.take 7)
+    let (rs, rest) ← takeRecs n (ts.drop 7)
+    pure (r :: rs, rest)
+  | _, _ => none
+
+def takeExchanges : Nat → List String → Option (List (Query × UpOut) × List String)
+  | 0, ts => some ([], ts)
+  | n + 1, "Q" :: name :: ty :: st :: rc :: n0 :: n1 :: n2 :: ts => do
+    let ty ← ty.toNat?
+    let rc ← rc.toNat?
+    let (an, ts) ← takeRecs (← n0.toNat?) ts
+    let (ns, ts) ← takeRecs (← n1.toNat?) ts
+    let (ad, ts) ← takeRecs (← n2.toNat?) ts
+    let m : Msg := { rcode := rc, an := an, ns := ns, ad := ad }
+    let out : UpOut := if st == "ok" then .ok m else if st == "nr" then .noRecords m else .fail
+    let (es, rest) ← takeExchanges n ts
+    pure ((⟨parseDName name, ty⟩, out) :: es, rest)
+  | _, _ => none
+
+structure Tables where
+  anchors : List Nat := []
+  covers : List (Nat × Nat) := []
+  sigs : List (Nat × Nat × GroupId × SigRes) := []
+  nsecs : List (Nat × Nat × Nat × Proof) := []
+
+def parseProofCh (s : String) : Proof :=
+  if s == "S" then .secure else if s == "I" then .insecure else if s == "B" then .bogus else .indet
+
+partial def parseTables (ts : List String) (t : Tables) : Option Tables :=
+  match ts with
+  | [] => some t
+  | "A" :: k :: rest => do parseTables rest { t with anchors := (← k.toNat?) :: t.anchors }
+  | "C" :: d :: k :: rest => do parseTables rest { t with covers := (← d.toNat?, ← k.toNat?) :: t.covers }
+  | "V" :: k :: s :: qi :: sec :: name :: ty :: c :: rest => do
+    let gid : GroupId := ⟨← qi.toNat?, ← sec.toNat?, parseDName name, ← ty.toNat?⟩
+    parseTables rest { t with sigs := (← k.toNat?, ← s.toNat?, gid, if c == "S" then .secure else .bogus) :: t.sigs }
+  | "N" :: qi :: m :: am :: c :: rest => do
+    parseTables rest { t with nsecs := (← qi.toNat?, ← m.toNat?, ← am.toNat?, parseProofCh c) :: t.nsecs }
+  | _ => none
+
+def mkEnv (es : List (Query × UpOut)) (t : Tables) : Env where
+  up := traceUp es
+  anchor k := t.anchors.contains k
+  covers d k := t.covers.contains (d, k)
+  sigRes k s g := match t.sigs.find? (fun e => e.1 == k && e.2.1 == s && e.2.2.1 == g) with
+    | some e => e.2.2.2
+    | none => .err
+  nsec qi m am := match t.nsecs.find? (fun e => e.1 == qi && e.2.1 == m && e.2.2.1 == am) with
+    | some e => e.2.2.2
+    | none => .bogus
+
+def proofCh : Proof → Char
+  | .secure => 'S'
+  | .insecure => 'I'
+  | .bogus => 'B'
+  | .indet => '-'
+
+def secStr (rs : List Rec) : String :=
+  if rs.isEmpty then "." else String.ofList (rs.map fun r => proofCh r.proof)
+
+def showRes : Res → String
+  | .ok m => s!"ok {m.rcode} {secStr m.an}/{secStr m.ns}/{secStr m.ad}"
+  | .errUp => "err up"
+  | .errDepth => "err depth"
+  | .errNsec p => s!"err nsec {proofCh p}"
+  | .abort w => w
+
+def showSrv (v : Nat × Bool) : String := s!"srv {v.1} {if v.2 then 1 else 0}"
+
+def splitBar (ts : List String) : List (List String) :=
+  ts.foldr (fun t acc => if t == "|" then [] :: acc else match acc with
+    | [] => [[t]]
+    | h :: rest => (t :: h) :: rest) [[]]
+
+def handle (toks : List String) : Option String := do
+  match splitBar toks with
+  | ("runx" :: _) :: _ => pure "~"  -- no model side: the implementation run without cache was abandoned
+  | [["run", _hid, qname, qtype, _e, d, c, _faults], "U" :: n :: us, "T" :: _ :: ts] =>
+    let depth ← (d.drop 1).toNat?
+    let cd := c == "C1"
+    let (es, _) ← takeExchanges (← n.toNat?) us
+    let tb ← parseTables ts {}
+    let env := mkEnv es tb
+    let q : Query := ⟨parseDName qname, ← qtype.toNat?⟩
+    let r := validate env (depth + 1) 0 q
+    match r with
+    | .abort w => pure w
+    | _ => pure s!"{showRes r} {showSrv (serverView cd q r)}"
+  | _ => none
+
+def step (s : State) (toks : List String) : State × String :=
+  (s, (handle toks).getD "bad-op")
 
 end HickoryVerif.Drv.C07
